@@ -264,12 +264,15 @@ func (p *Program) Func(pkgPath, recv, name string) *ssa.Function {
 func (p *Program) Instances(pkgPath, recv, name string) []*ssa.Function {
 	var out []*ssa.Function
 	for _, fn := range p.Funcs {
-		if fn.Parent() != nil || fn.Name() != name {
+		if fn.Parent() != nil {
 			continue
 		}
 		o := fn
 		if fn.Origin() != nil {
 			o = fn.Origin()
+		}
+		if o.Name() != name {
+			continue
 		}
 		if o.Pkg == nil || o.Pkg.Pkg.Path() != pkgPath {
 			continue
@@ -286,6 +289,17 @@ func (p *Program) Instances(pkgPath, recv, name string) []*ssa.Function {
 		if namedName(o.Signature.Recv().Type()) == recv {
 			if fn.TypeParams().Len() > 0 && len(fn.TypeArgs()) == 0 {
 				continue // uninstantiated generic body
+			}
+			if n, ok := deref(fn.Signature.Recv().Type()).(*types.Named); ok {
+				generic := n.TypeParams().Len() > 0 && n.TypeArgs().Len() == 0
+				for i := 0; i < n.TypeArgs().Len(); i++ {
+					if _, isTP := n.TypeArgs().At(i).(*types.TypeParam); isTP {
+						generic = true
+					}
+				}
+				if generic {
+					continue // method of the uninstantiated generic type
+				}
 			}
 			out = append(out, fn)
 		}
